@@ -3,7 +3,7 @@ def unit(name, cont, tracked=0, entries=None):
     return dict(
         name=name, harness='harness/c03_seq.cpp',
         defines={'all': {'CONT': cont, 'TRACKED': tracked}, 'quick': {'VF_K': 3, 'VF_N': 5, 'VF_SORTN': 5}, 'thorough': {'VF_K': 4, 'VF_N': 9, 'VF_SORTN': 7}},
-        entries=entries or (['history', 'step'] + (['sort'] if cont == 1 else [])),
+        entries=entries or (['history', 'step'] + (['sort'] if cont == 1 else []) + (['self_args'] if cont != 3 else [])),
         opts={'all': {'unwind': 64}},
         split={'quick': 5, 'thorough': 16},
         budget={'quick': 280, 'thorough': 2600},
